@@ -135,6 +135,37 @@ def needs_unstage(led, d):
     return f
 
 
+def inmsg_flags(obs):
+    """for every entry of obs["devcalls"]: was the call made while the plan's own 'unstage' message for that device
+    was being processed (between its ["msg"] and ["resp"] observations)?  The engine's last-chance calls in the
+    finally block of `_run` come outside any message."""
+    flags = []
+    cur = None
+    for o in obs["obs"]:
+        if o[0] == "msg":
+            cur = (o[2].get("cmd"), o[2].get("obj"))
+        elif o[0] == "resp":
+            cur = None
+        elif o[0] == "dev":
+            flags.append(cur is not None and cur[0] == "unstage" and o[2] == "unstage" and cur[1] == o[1])
+    return flags
+
+
+def still_staged(led, flags, d):
+    """the retry clause: an unstage() that RAISED while the plan's 'unstage' message was processed leaves the
+    device staged (the engine keeps it in its bookkeeping) - it has to be tried again before the engine goes idle;
+    a successful unstage(), or any last-chance attempt of the engine (nothing more can be done), settles it"""
+    f = False
+    for (dev, meth, res), inmsg in zip(led, flags):
+        if dev != d:
+            continue
+        if meth == "stage" and _ok(res):
+            f = True
+        elif meth == "unstage" and (_ok(res) or not inmsg):
+            f = False
+    return f
+
+
 def needs_stop(led, d):
     """after the last set() call of d (any result: the engine records the object before calling set)
     there is no later stop() call of d"""
@@ -165,6 +196,7 @@ def problems(obs):
     """[(kind, message)] of the property violations of this run"""
     out = []
     start = 0
+    flags = inmsg_flags(obs)
     for o, led in ledger_prefixes(obs):
         state = o[-3]
         if state != "idle":
@@ -177,6 +209,9 @@ def problems(obs):
                 out.append(("stop", "%s device %d had been set and was not told to stop after its last set" % (where, d)))
             if needs_unstage(led, d):
                 out.append(("unstage", "%s device %d was left staged (no unstage after its last successful stage)" % (where, d)))
+            elif still_staged(led, flags, d):
+                out.append(("unstage", "%s device %d was left staged: its unstage() raised while the plan's unstage message was "
+                                       "processed and the engine did not try again" % (where, d)))
         for d in devices_of(led):
             nsub = sum(1 for c in led if c[0] == d and c[1] == "subscribe" and _ok(c[2]))
             nclr = sum(1 for c in led if c[0] == d and c[1] == "clear_sub")
